@@ -284,17 +284,90 @@ PROPERTIES["C01"] = {
 }
 PROPERTIES["C19"]["mirsym"].append(PROPERTIES["C01"]["mirsym"][0])
 
-HOOK_COMMITS = ["e6aec85"]
+PROPERTIES["C11"] = {
+    "mirsym": [
+        M("c11_envelope_roundtrip", "d_c11", "envelope_roundtrip",
+          "payload of 0..3 frames, each empty or 1 symbolic byte, incoming MORE flags arbitrary; DEALER->ROUTER and ROUTER->DEALER auto-framing",
+          budget={"quick": 120, "thorough": 300}, required_covers=["c11.payload-starting-with-empty-frame"]),
+        M("c11_router_map_history", "d_c11", "router_map_history",
+          {"quick": "all histories of 4 operations from {add_peer, update_peer_identity, remove_peer_by_read_pipe, remove_peer_by_identity} over 2 pipes x 2 identities (collisions and re-identification included)",
+           "thorough": "histories of 5 operations"},
+          params={"quick": {"ops": 4}, "thorough": {"ops": 5}}, budget={"quick": 500, "thorough": 3300},
+          required_covers=["c11.routermap.routable"]),
+    ],
+    "assumptions": MIRSYM_TRUST + ["RouterMap histories are enumerated by forking with concrete identities (bounded exhaustive execution of the MIR)"],
+    "manifest": {
+        "engine": "mirsym",
+        "technique": "symbolic execution of the envelope framing functions and of RouterMap (MIR, z3) over all bounded payload shapes / histories",
+        "text": "Delimiter insertion and stripping round-trips every payload shape unchanged in both directions (including payloads starting with an empty frame), with a well-formed MORE chain on the inserted frames; a RouterMap lookup never yields a connection that did not announce that identity and a pipe is never labelled with another peer's identity, for every bounded history including collisions and re-identification.",
+        "design_ref": "DESIGN.md §5 C11",
+        "note": "Safety only: that an announced identity stays routable after a colliding peer leaves is NOT claimed (observed as reachable, see DESIGN.md). Identity gate timing, ROUTER_MANDATORY error kinds and REQ/REP envelope handling on live sockets are outside.",
+    },
+    "outside": "live ROUTER sockets (identity gate, mandatory errors), REQ/REP envelope save/restore",
+}
+
+PROPERTIES["C05"] = {
+    "mirsym": [
+        M("c05_pair_convergence", "d_c05", "pair_convergence",
+          {"quick": "client(DEALER)+server(ROUTER) engines wired back to back; NULL / PLAIN with equal / PLAIN with unequal symbolic credentials; routing id absent or 1 symbolic byte; the first 5 deliveries chosen freely from {direction} x {one byte, everything pending}, then alternate flushing",
+           "thorough": "first 7 deliveries free"},
+          params={"quick": {"decisions": 5}, "thorough": {"decisions": 7}}, budget={"quick": 500, "thorough": 3300},
+          required_covers=["c05.pair.converged", "c05.pair.refused"]),
+        M("c05_compat_v3_vs_v2", "d_c05", "compat_v3_vs_v2",
+          "local type: each of the 8 implemented socket types; peer type: each of the 11 ZMTP wire names; ZMTP/3 READY path vs ZMTP/2.0 greeting path vs the ZeroMQ pairing table",
+          budget={"quick": 200, "thorough": 300}, required_covers=["c05.compat.accepted", "c05.compat.refused"]),
+        M("c05_compat_inproc", "d_c05", "compat_inproc",
+          "all 8x8 SocketType pairs through transport::inproc::handshake::validate_socket_compatibility vs the ZeroMQ pairing table",
+          budget={"quick": 100, "thorough": 100}, required_covers=["c05.inproc.accepted"]),
+    ],
+    "assumptions": MIRSYM_TRUST + ["delivery schedules beyond the free prefix are covered through C04 (engine output is a function of the concatenated input)"],
+    "manifest": {
+        "engine": "mirsym",
+        "technique": "symbolic execution of two real engines wired back to back (MIR, z3) under solver-enumerated delivery schedules; table equivalence by exhaustive symbolic execution of the three verdict paths",
+        "text": "Compatible endpoints always reach Data and agree on peer socket type and identity; unequal PLAIN credentials end in failure without a HandshakeComplete on either side; the verdict for every (local, peer) socket-type pair is identical over ZMTP/3 and ZMTP/2.0 and equals the ZeroMQ pairing table; the inproc table is compared against the same table.",
+        "design_ref": "DESIGN.md §5 C05",
+        "note": "NOT claimed: CURVE/NOISE convergence, connect()/monitor-level outcomes, mechanism mismatch at socket level. The inproc table deviates for six ordered pairs (known finding, pinned by an existing unit test).",
+    },
+    "outside": "CURVE/NOISE, socket-level connect outcomes",
+}
+
+NOTIFY_TRUST = CFA_TRUST + ["tokio::sync::Notify: notified() registers at creation; awaiting it blocks until a notify_waiters() issued after that registration (tokio's documented guarantee)",
+                           "a Vec behind a parking_lot Mutex is tracked by its length only; lock scopes are not modelled (over-approximation of interleavings)"]
+
+PROPERTIES["C16"] = {
+    "cfabmc": [
+        dict(name="c16_waitgroup", module="verifkit.cfabmc.wg_check",
+             scenarios={"quick": [dict(workers=1), dict(workers=2)], "thorough": [dict(workers=1), dict(workers=2), dict(workers=3, K=22)]},
+             timeout_ms={"quick": 300000, "thorough": 1800000}, tiers=("quick", "thorough")),
+    ],
+    "assumptions": NOTIFY_TRUST,
+    "manifest": {
+        "engine": "cfabmc",
+        "technique": "bounded model checking of interleavings (z3): CFAs of WaitGroup::wait / done extracted from MIR, scheduler as solver variables",
+        "text": "With 1..3 workers calling done() and one task in wait(), over all interleavings of the individual counter / Notify operations: the waiter never remains parked on the Notify while the count is zero, done() never underflows, the re-check loop stays within its bound.",
+        "design_ref": "DESIGN.md §5 C16",
+        "note": "Only the WaitGroup kernel that Context::term() and socket shutdown wait on. NOT claimed: bounded completion time of close()/term(), errors after close, ports and inproc names being released, no task left running (actors, tokio, OS state).",
+    },
+    "outside": "everything except the WaitGroup kernel",
+}
+PROPERTIES["C13"]["cfabmc"] = [
+    dict(name="c13_wait_for_connection", module="verifkit.cfabmc.lb_check", scenarios={"quick": [dict()], "thorough": [dict(K=20, wait_ops=12)]},
+         timeout_ms={"quick": 300000, "thorough": 900000}, tiers=("quick", "thorough")),
+]
+PROPERTIES["C13"]["assumptions"] = PROPERTIES["C13"]["assumptions"] + NOTIFY_TRUST
+PROPERTIES["C13"]["manifest"]["engine"] = "mirsym+cfabmc"
+PROPERTIES["C13"]["manifest"]["technique"] += "; interleaving BMC (z3) of wait_for_connection vs add_connection over CFAs extracted from MIR"
+PROPERTIES["C13"]["manifest"]["text"] += " A sender in wait_for_connection never stays parked once a peer has been added, for every interleaving of the check / subscribe / add / notify operations."
+PROPERTIES["C13"]["manifest"]["note"] = "NOT claimed: skipping of full peers in route_message, fairness over time on live sockets, SNDTIMEO interplay."
+
+HOOK_COMMITS = ["e6aec85", "b7f56e8", "904f401"]
 
 NOT_APPLICABLE = {
-    "C05": "not claimed yet (machinery under construction)",
-    "C09": "not claimed yet (machinery under construction)",
-    "C10": "not claimed yet (machinery under construction)",
-    "C11": "not claimed yet (machinery under construction)",
+    "C09": "cancellation needs the drop glue of the suspended coroutine; rustc's -Zunpretty=mir dump does not contain coroutine drop shims, Kani cannot run async socket code, and the socket-level futures of the eight socket types reach into SocketCore/tokio; what the interleaving check can say (ready_tx.send never blocks, so ReadyPipeSender::send can only be cancelled at the pipe-full await) is reported under C08, not claimed here",
+    "C10": "REQ/REP state handling lives inside ReqSocket/RepSocket methods that are welded to SocketCore, the load balancer, tokio::select! and Notify; there is no sans-IO state machine to encode, and extracting lock-scope CFAs through tokio::select! expansions was not achieved in the time available",
     "C14": "SNDTIMEO/RCVTIMEO are wall-clock semantics of tokio timers around channel operations and the buffering bound is an end-to-end quantity across three tasks; there is no function whose symbolic execution states it, and a symbolic timer would verify the stub, not rzmq (DESIGN.md §5 C14)",
     "C15": "LINGER is a multi-actor shutdown protocol over tokio timers, mailboxes and kernel socket buffers; out of reach of solver-based checking of functions (DESIGN.md §5 C15)",
-    "C16": "not claimed yet (machinery under construction)",
-    "C18": "not claimed yet (machinery under construction)",
+    "C18": "secrecy / tamper detection are properties of the AEAD; the structural parts (record length prefix, heartbeats through the active framer) need the curve / noise_xx features whose MIR and cipher models were not built in the time available",
     "C20": "backend equivalence and kernel-object lifecycles (io_uring rings, fds) cannot be encoded; handlers need a live IoUring (DESIGN.md §5 C20)",
 }
 
@@ -323,3 +396,5 @@ def replay(prop, result, failure):
         failure.replayed, failure.replay_note, failure.replay_path = ok, note, path
     elif cex.get("engine") == "mirsym":
         mirsym_engine.replay_failure(failure)
+    elif cex.get("engine") == "cfabmc":
+        cfabmc_engine.replay_failure(failure)
